@@ -7,6 +7,7 @@ on a distance-independent and on a distance-dependent package:
 
  (a) other values on flag-0 / flag-9 bands (non-positive ones and -999 placeholders included) -> identical FitInfo
  (b) limits with confidence 0  vs  the same bands flagged 0                                -> identical FitInfo
+ (a') flags 0 and 9 exchanged on the ignored bands                                         -> identical FitInfo
  (c) flag-1 bands  vs  flag-4 bands carrying (log10 F - 0.5 (s/F)^2/ln10, |s/F|/ln10)      -> identical to 1e-12
  (h) ONE Source object fitted, its valid / flux / error re-assigned (each alone and combined), fitted again
                                                                           -> bit-identical to a fresh Source with that content
@@ -48,6 +49,7 @@ REQUIRED_BRANCHES = ['flag0', 'flag1', 'flag2', 'flag3', 'flag4', 'flag9', 'conf
                      'ignored_zero_flux_zero_err', 'ignored_inf', 'ignored_nan', 'ignored_huge_tiny',
                      'exact_tie_indep', 'exact_tie_dist', 'exact_tie_model',
                      'indep_files', 'indep_cube_wav', 'indep_cube_wav_memmap',
+                     'n_fitted_0', 'n_fitted_1', 'n_fitted_2', 'pair_conf0_singular', 'pair_swap09', 'pair_swap09_singular',
                      'low_snr', 'same_object_valid', 'same_object_flux', 'same_object_error', 'same_object_combined']
 ASSUMPTIONS = ['IEEE rounding is not modelled: model comparison tolerance 1e-9 x condition number; paired real runs are '
                'compared to 1e-12 relative (they are bit-identical on the unchanged tree)',
@@ -57,7 +59,8 @@ ASSUMPTIONS = ['IEEE rounding is not modelled: model comparison tolerance 1e-9 x
                'penalty may appear',
                'fits with fewer than 2 fitted bands of distinct extinction coefficient (distance-independent) or no '
                'fitted band (distance-dependent) are singular (outside the grids of C01/C02: every output is NaN or '
-               'rounding noise): only the NaN-aware identity of paired runs (a) is checked there',
+               'rounding noise): only the NaN-aware identity of the paired runs (a), (b) and 0 <-> 9 is checked there; with NO fitted '
+               'band chi2 is left out of (b) and 0 <-> 9 (unchanged tree: 0.0 if all bands are flagged 0, NaN otherwise)',
                'failures of clauses owned by other properties (source modified: C11; n_data: C05; ranking: C04) are reported as broken '
                'correspondence (violates=None), not as C03 violations',
                'with use_memmap=True (float32 model fluxes) only the paired real runs and the penalty arithmetic are checked',
@@ -73,6 +76,8 @@ DIRECTED = [
     [1, 1, 1], [4, 4, 4], [1, 4, 0], [1, 4, 9], [1, 1, 2], [1, 1, 3], [4, 1, 2, 3], [1, 1, 2, 2, 3],
     [0, 9, 1, 4, 1], [9, 9, 1, 1, 0], [1, 0, 0], [0, 0], [9], [2, 3], [1, 2, 3, 4, 9], [4, 4, 3, 0, 9],
     [1, 1, 3, 3], [1, 4, 2, 2], [3, 1, 1, 1, 1], [2, 4, 4, 4, 4],
+    # number of fitted bands 0, 1, 2 next to limits / plot-only / unused bands
+    [0, 9, 2], [9, 0, 0], [3, 0], [1, 3, 0], [1, 9, 0], [4, 2, 9], [0, 4], [9, 1], [1, 1, 0], [4, 1, 9], [1, 4, 3, 0],
 ]
 # what the limits of a directed vector should look like (index into DIRECTED -> (far, conf))
 DIRECTED_LIMITS = {4: ('violated', 1.), 5: ('violated', 1.), 6: ('violated', 0.5), 7: ('ok', 0.9),
@@ -368,6 +373,8 @@ def variants(src):
     if any(f in (0, 9) for f in flags):
         out['ignored'] = build(flags, src['ign_b'])
         out['benign'] = build(flags, [benign_values(x[0]) for x in src['lin']])
+    if any(f in (0, 9) for f in flags):
+        out['swap09'] = build([{0: 9, 9: 0}.get(f, f) for f in flags], src['ign_a'])
     if any(f in (2, 3) for f in flags):
         out['conf0'] = build(flags, src['ign_a'], conf0=True)
         nolim = [0 if f in (2, 3) else f for f in flags]
@@ -716,15 +723,29 @@ def check_mode(case, mode, fitter, names, use_model, branches, stats):
                 diff = same_info(R, res[k], 1e-12)
                 if diff:
                     return fail('(a) other values on flag 0/9 bands', ('benign', k), diff)
+        # The next two pairs come straight from the statement and are applied to EVERY source, well-posed or not, NaN-aware:
+        # paired sources go through the same arithmetic, so even a degenerate result (one fitted band: NaN / rounding noise)
+        # must come out the same.  With NO fitted band at all chi2 is excluded: on the unchanged tree it is 0.0 when every band
+        # is flagged 0 (chi_squared forces flag-0 terms to zero) and NaN as soon as a limit or a flag-9 band is present
+        # (0 * NaN), e.g. flags [0,0,0] vs [0,9,0]: chi2 0.0 vs nan in both modes - a fit without data, reported, not judged.
+        n_fitted = sum(1 for f in S['flags'] if f in (1, 4))
+        branches.add('n_fitted_%s' % (n_fitted if n_fitted < 3 else '3plus'))
+        fields = ('av', 'sc', 'chi2', 'model_fluxes') if n_fitted > 0 else ('av', 'sc')
+        # (b) confidence 0 == flag 0
+        if 'conf0' in res:
+            branches.add('pair_conf0' if regular else 'pair_conf0_singular')
+            diff = same_info(res['conf0'], res['limits_off'], 1e-12, fields=fields)
+            if diff:
+                return fail('(b) limits with confidence 0 vs the same bands flagged 0', ('conf0', 'limits_off'), diff)
+        # (a') a band flagged 0 vs the same band flagged 9: neither may influence anything
+        if 'swap09' in res:
+            branches.add('pair_swap09' if regular else 'pair_swap09_singular')
+            diff = same_info(A, res['swap09'], 1e-12, fields=fields)
+            if diff:
+                return fail("(a') flags 0 and 9 exchanged on the ignored bands", ('S', 'swap09'), diff)
         if not regular:
             continue
         # everything below needs a well-posed fit
-        # (b) confidence 0 == flag 0
-        if 'conf0' in res:
-            branches.add('pair_conf0')
-            diff = same_info(res['conf0'], res['limits_off'], 1e-12)
-            if diff:
-                return fail('(b) limits with confidence 0 vs the same bands flagged 0', ('conf0', 'limits_off'), diff)
         if not np.all(np.isfinite(A['av'])) or not np.all(np.isfinite(A['sc'])) or np.any(np.isnan(A['chi2'])):
             return CaseResult(False, violates=True, branches=branches,
                               detail='%s mode: non-finite result on a well-posed source %r: av=%r sc=%r chi2=%r'
